@@ -92,6 +92,14 @@ AllowedSyn(id) ==
        THEN SessionErr \cup Rst({RstRefused, RstProtocol})
   ELSE {"acc"}
 
+\* a well-framed SYN_STREAM whose request is malformed (3.2.1: missing / invalid :method, :path,
+\* :version, :host, :scheme): the id rules come first and the id counts as USED whatever happens to
+\* the request; the request itself is refused (BFE: stream error PROTOCOL_ERROR; a 400 reply or a
+\* session error would be legal too) and no handler may run.
+AllowedSynBad(id) ==
+  IF id % 2 = 0 \/ id <= maxId \/ nOpen >= MAXS THEN AllowedSyn(id)
+  ELSE SessionErr \cup Rst({RstProtocol, RstInvalid, RstRefused}) \cup {"acc"}
+
 AllowedData(id, len) ==
   CASE State(id) = "idle"   -> SessionErr \cup Rst({RstInvalid, RstProtocol})          \* 2.2.2
     [] State(id) = "hcr"    -> SessionErr \cup Rst({RstClosed, RstProtocol, RstInvalid}) \* 2.3.6
@@ -115,6 +123,7 @@ AllowedSettings(v) ==
 \* the case of the draft a client frame falls into (names the expectation in reports)
 WhySyn(id) == IF id % 2 = 0 THEN "syn:even" ELSE IF id < maxId THEN "syn:decreasing" ELSE IF id = maxId THEN "syn:same-id"
               ELSE IF nOpen >= MAXS THEN "syn:over-max-streams" ELSE "syn:ok"
+WhySynBad(id) == IF WhySyn(id) = "syn:ok" THEN "synbad:malformed-request" ELSE "synbad:" \o WhySyn(id)
 WhyData(id, len) == CASE State(id) = "idle" -> "data:idle-stream" [] State(id) = "hcr" -> "data:half-closed"
                       [] State(id) = "closed" -> "data:closed-stream"
                       [] OTHER -> IF len > 0 /\ len > sIn[id] THEN "data:over-stream-window"
@@ -227,6 +236,39 @@ Syn(id, fin) ==
         /\ h' = [h EXCEPT ![id] = "run"] /\ started' = started \cup {id}
         /\ UNCHANGED <<goaway, dead, cIn, cOut, iw, buf, replied, pend, acc, accC, cons, consC, wuS, wuC,
                        out, outC, cgC, over, rsts, fins, quiet, panic>>
+
+\* ---- SYN_STREAM carrying a malformed request (processSynStream + newWriterAndRequest failing)
+SynBad(id, fin) ==
+  /\ Alive /\ Step
+  /\ LET A == AllowedSynBad(id) IN
+     IF id % 2 = 0 \/ id < maxId THEN
+        /\ Outcome("goaway", A) /\ goaway' = TRUE
+        /\ UNCHANGED <<maxId, dead, st, nOpen, sIn, cIn, iw, buf, replied, started, acc, accC, cons, consC,
+                       wuS, wuC, rsts, fins, quiet, panic>>
+        /\ NoSend
+     ELSE IF id = maxId THEN
+        /\ Outcome(Tok(RstProtocol), A)
+        /\ rsts' = rsts \cup {<<id, RstProtocol>>}
+        /\ st' = IF Live(id) THEN CloseSt(id, st) ELSE st
+        /\ nOpen' = IF Live(id) THEN nOpen - 1 ELSE nOpen
+        /\ quiet' = quiet \cup {id}
+        /\ pend' = [pend EXCEPT ![id] = 0]
+        /\ h' = [h EXCEPT ![id] = IF @ = "blocked" THEN "run" ELSE @]
+        /\ UNCHANGED <<maxId, goaway, dead, sIn, cIn, sOut, cOut, iw, buf, replied, started, acc, accC, cons, consC,
+                       wuS, wuC, out, outC, cgS, cgC, over, fins, panic>>
+     ELSE IF nOpen + 1 > MAXS THEN
+        /\ Outcome("close", A) /\ dead' = TRUE /\ maxId' = id
+        /\ UNCHANGED <<goaway, st, nOpen, sIn, cIn, iw, buf, replied, started, acc, accC, cons, consC,
+                       wuS, wuC, rsts, fins, quiet, panic>>
+        /\ NoSend
+     ELSE                                       \* the id is used up; stream error, no handler
+        /\ Outcome(Tok(RstProtocol), A)
+        /\ maxId' = id
+        /\ rsts' = rsts \cup {<<id, RstProtocol>>}
+        /\ st' = [st EXCEPT ![id] = "closed"] /\ quiet' = quiet \cup {id}
+        /\ UNCHANGED <<goaway, dead, nOpen, sIn, cIn, iw, buf, replied, started, acc, accC, cons, consC,
+                       wuS, wuC, fins, panic>>
+        /\ NoSend
 
 \* a stream error on a live stream: RST_STREAM + closeStream
 ResetLive(id, code) ==
@@ -396,6 +438,7 @@ HFinish(id) ==
 
 Next ==
   \/ \E id \in IDS, fin \in BOOLEAN : Syn(id, fin)
+  \/ \E id \in IDS, fin \in BOOLEAN : SynBad(id, fin)
   \/ \E id \in IDS, len \in DSIZES, fin \in BOOLEAN : Data(id, len, fin)
   \/ \E id \in IDS \cup {0}, d \in WUDS : Wu(id, d)
   \/ \E id \in IDS : RstC(id)
@@ -427,6 +470,10 @@ ViewOK      == /\ cgC = cOut
 \* a handler runs only for SYN_STREAMs the draft accepts; never more than MAXS at a time
 StartedOK   == /\ \A i \in started : i % 2 = 1 /\ i <= maxId
                /\ nOpen = Cardinality({i \in IDS : Live(i)}) /\ nOpen <= MAXS
+\* id monotonicity over ALL ids the client used, refused ones included: maxId is the highest id of
+\* any SYN_STREAM that passed the id rules, so a stream can only be live / a handler started with an
+\* id that was above every earlier one
+IdsOK       == \A i \in IDS : (st[i] # "idle" \/ i \in started) => i <= maxId
 NoPanic     == ~panic
 PendOK      == \A i \in IDS : pend[i] >= 0 /\ (pend[i] > 0 => Live(i) /\ h[i] = "blocked")
 InflowOK    == cIn >= 0 /\ cIn <= W /\ \A i \in IDS : sIn[i] >= 0 /\ sIn[i] <= W /\ buf[i] <= W
